@@ -29,7 +29,7 @@ m = {
         "kind_free_text": "Go module (pgregory.net/rapid v1.3.0 property-based tests, native go fuzz targets in the thorough tier) built against /repo's working tree with -tags verif; driver ./check",
     }],
     "checks": [],
-    "notes": "Every check: ./check <ID> [--tier quick|thorough] [--replay FILE]; exit 0 held / 1 VIOLATION / 2 inconclusive. VERIF_SEED selects the rapid PRNG values (seed*1000+shard+1). Known findings are listed in known_findings.json.",
+    "notes": "Every check: ./check <ID> [--tier quick|thorough] [--replay FILE]; exit 0 held / 1 VIOLATION / 2 inconclusive. VERIF_SEED selects the rapid PRNG values (seed*1000003+(shard+1)*2000000011, far apart because rapid derives case seeds cumulatively). Known findings are listed in known_findings.json.",
     "not_applicable": [],
 }
 for pid in props:
